@@ -1,9 +1,19 @@
 use quote::ToTokens;
 use syn::{spanned::Spanned, Expr, Lit, LitStr, Meta, MetaNameValue, Path};
 
+/// Looks through the invisible group that wraps a `macro_rules` fragment (`$e:expr`, `$p:path`, ...).
+#[inline]
+pub(crate) fn ungroup(mut expr: &Expr) -> &Expr {
+    while let Expr::Group(group) = expr {
+        expr = group.expr.as_ref();
+    }
+
+    expr
+}
+
 #[inline]
 pub(crate) fn meta_name_value_2_path(name_value: &MetaNameValue) -> syn::Result<Path> {
-    match &name_value.value {
+    match ungroup(&name_value.value) {
         Expr::Lit(lit) => {
             if let Lit::Str(lit) = &lit.lit {
                 return lit.parse();
